@@ -4,12 +4,13 @@
   Literal model of
     fontir/src/ir.rs                      `NameBuilder` (add / remove / apply_fallback / build: the fallback chain
                                           for name ids 1, 2, 3, 4, 5, 6, 16, 17; lines 829-1082)
-    fontir/src/ir/static_metadata.rs      `NameKey::new`, `StaticMetadata::new` (name-id allocation from 256 with string
-                                          reuse and the id 2/17 exception, lines 403-457), `reverse_names` (513-522)
-    fontbe/src/fvar.rs                    `generate_fvar`: `reusable_name_id` (lines 38-49, 79, 96-108)
+    fontir/src/ir/static_metadata.rs      `NameKey::new`, `StaticMetadata::new` (name-id allocation after the largest
+                                          existing id, string reuse, the id 2/17 exception, lines 403-464), `reverse_names` (513-522)
+    fontbe/src/fvar.rs                    `generate_fvar`: `reusable_name_id` (lines 38-58)
     fontbe/src/stat.rs                    `make_stat` (lines 66-96)
     fontbe/src/features.rs:638-650 + fea-rs/src/compile/output.rs:90-113   FEA name-id shifting
     fontbe/src/name.rs:105-132            merge of FEA name records
+  as of /repo 6370354 (the three C18 fixes applied); the code before the fixes is kept as `allocOld` / `reusableNameIdOld`.
 
   Strings are lists of Unicode code points (`Nat`), as in `FontcModel/Paths.lean`.
   A Rust `HashMap` is an insertion-ordered association list with unique keys; wherever the Rust code *iterates* a
@@ -112,44 +113,9 @@ def initReusable (order : List NameKey) (names : Table) : List (Str × NameKey) 
     | some v => if 255 < k.id then ainsert v k r else r
     | none => r) []
 
-/-- static_metadata.rs:432-434: `names.iter().find_map(|(key, string)| (*string == instance_name).then_some(key.name_id))`
-    — the *first* key, in hash-iteration order, whose string is the instance name. -/
-def firstMatch (order : List NameKey) (names : Table) (s : Str) : Option Nat :=
-  order.findSome? fun k => if alookup k names = some s then some k.id else none
-
-/-- static_metadata.rs:431-439: the default instance's subfamily name may reuse name id 2 or 17 -/
-def reuseSubfamily (order : List NameKey) (names : Table) (ni : Inst) : Bool :=
-  ni.atDefault &&
-    match firstMatch order names ni.name with
-    | some id => isSub id
-    | none => false
-
-/-- body of the loop at static_metadata.rs:429-450 -/
-def regInst (order : List NameKey) (names : Table) (st : St) (ni : Inst) : St :=
-  let st := if reuseSubfamily order names ni then st else register st ni.name
-  match ni.ps with
-  | some p => register st p
-  | none => st
-
-def allocState (order : List NameKey) (x : Input) : St :=
-  let st0 : St := ⟨initReusable order x.names, 255⟩
-  let st1 := x.labels.foldl register st0
-  (effInsts x).foldl (regInst order x.names) st1
-
-/-- static_metadata.rs:452-457: `names.extend(reusable_names.into_iter().map(|(string, key)| (key, string)))`.
-    (Two strings under one key can only happen when the source itself supplies a font-specific id that the
-    allocator hands out again; the winner then depends on a second hash order that the model fixes to insertion
-    order — see `SourceIdsClear` in FontcProps/C18.lean.) -/
-def extend (names : Table) (reusable : List (Str × NameKey)) : Table :=
-  reusable.foldl (fun t p => ainsert p.2 p.1 t) names
-
-/-- The `names` of the resulting `StaticMetadata`. -/
-def alloc (order : List NameKey) (x : Input) : Table := extend x.names (allocState order x).reusable
-
-/-! ## Reverse lookup used by fvar and STAT -/
-
-/-- name ids of all records whose string is `s` -/
-def idsOf (t : Table) (s : Str) : List Nat := (t.filter fun p => p.2 = s).map (·.1.id)
+/-- largest name id in `names`, at least 255 (static_metadata.rs:403-411 `name_id_gen`; also
+    fontbe/src/features.rs:639-645 `max_existing_name_id`) -/
+def maxId (t : Table) : Nat := t.foldl (fun m p => max m p.1.id) 255
 
 /-- insertion into an ascending list / insertion sort (structural, so that closed instances evaluate in the kernel) -/
 def insertAsc (a : Nat) : List Nat → List Nat
@@ -157,11 +123,84 @@ def insertAsc (a : Nat) : List Nat → List Nat
   | b :: t => if a ≤ b then a :: b :: t else b :: insertAsc a t
 def sortAsc (l : List Nat) : List Nat := l.foldr insertAsc []
 
+/-- static_metadata.rs:436-440: `names.iter().filter(|(_, string)| *string == instance_name).map(|(key, _)| key.name_id).min()`
+    — the smallest name id, over the hash iteration `order`, whose string is the instance name. -/
+def smallestMatch (order : List NameKey) (names : Table) (s : Str) : Option Nat :=
+  (sortAsc (order.filterMap fun k => if alookup k names = some s then some k.id else none)).head?
+
+/-- static_metadata.rs:441-445: the default instance's subfamily name may reuse name id 2 or 17 -/
+def reuseSubfamily (order : List NameKey) (names : Table) (ni : Inst) : Bool :=
+  ni.atDefault &&
+    match smallestMatch order names ni.name with
+    | some id => isSub id
+    | none => false
+
+/-- body of the loop at static_metadata.rs:430-457 -/
+def regInst (order : List NameKey) (names : Table) (st : St) (ni : Inst) : St :=
+  let st := if reuseSubfamily order names ni then st else register st ni.name
+  match ni.ps with
+  | some p => register st p
+  | none => st
+
+/-- static_metadata.rs:403-457; allocation starts after the largest id the source already uses -/
+def allocState (order : List NameKey) (x : Input) : St :=
+  let st0 : St := ⟨initReusable order x.names, maxId x.names⟩
+  let st1 := x.labels.foldl register st0
+  (effInsts x).foldl (regInst order x.names) st1
+
+/-- static_metadata.rs:459-464: `names.extend(reusable_names.into_iter().map(|(string, key)| (key, string)))`.
+    (`reusable_names` is a `HashMap` too; the model inserts in insertion order, and
+    `C18.extend_order_irrelevant` shows that any other order gives the same map.) -/
+def extend (names : Table) (reusable : List (Str × NameKey)) : Table :=
+  reusable.foldl (fun t p => ainsert p.2 p.1 t) names
+
+/-- The `names` of the resulting `StaticMetadata`. -/
+def alloc (order : List NameKey) (x : Input) : Table := extend x.names (allocState order x).reusable
+
+/-! ### History: the allocation before commits c4dd162 / ba69b97 (kept for the counterexamples in FontcProps/C18.lean) -/
+
+/-- old static_metadata.rs:432-434: `names.iter().find_map(|(key, string)| (*string == instance_name).then_some(key.name_id))`
+    — the *first* key, in hash-iteration order, whose string is the instance name. -/
+def firstMatch (order : List NameKey) (names : Table) (s : Str) : Option Nat :=
+  order.findSome? fun k => if alookup k names = some s then some k.id else none
+
+def reuseSubfamilyOld (order : List NameKey) (names : Table) (ni : Inst) : Bool :=
+  ni.atDefault &&
+    match firstMatch order names ni.name with
+    | some id => isSub id
+    | none => false
+
+def regInstOld (order : List NameKey) (names : Table) (st : St) (ni : Inst) : St :=
+  let st := if reuseSubfamilyOld order names ni then st else register st ni.name
+  match ni.ps with
+  | some p => register st p
+  | none => st
+
+/-- old: `let mut name_id_gen = 255;` whatever ids the source already used -/
+def allocStateOld (order : List NameKey) (x : Input) : St :=
+  let st0 : St := ⟨initReusable order x.names, 255⟩
+  let st1 := x.labels.foldl register st0
+  (effInsts x).foldl (regInstOld order x.names) st1
+
+def allocOld (order : List NameKey) (x : Input) : Table := extend x.names (allocStateOld order x).reusable
+
+/-! ## Reverse lookup used by fvar and STAT -/
+
+/-- name ids of all records whose string is `s` -/
+def idsOf (t : Table) (s : Str) : List Nat := (t.filter fun p => p.2 = s).map (·.1.id)
+
 /-- `reverse_names().get(s)` as an ascending sequence (`BTreeSet<NameId>` iteration; duplicates are harmless for `find`) -/
 def reverseIds (t : Table) (s : Str) : List Nat := sortAsc (idsOf t s)
 
-/-- fvar.rs:41-49 `reusable_name_id(name, allow_reserved)`; `none` = one of the two `unwrap()`s panics -/
-def reusableNameId (t : Table) (s : Str) (allowReserved : Bool) : Option Nat :=
+/-- fvar.rs:39-58 `reusable_name_id(name, allow_subfamily)`: the smallest id carrying the string if it is 2 or 17 and the
+    caller allows it, else the first font-specific id; `none` = one of the two `unwrap()`s panics -/
+def reusableNameId (t : Table) (s : Str) (allowSubfamily : Bool) : Option Nat :=
+  match (reverseIds t s).head?.filter (fun id => allowSubfamily && isSub id) with
+  | some id => some id
+  | none => (reverseIds t s).find? fun id => 256 ≤ id
+
+/-- History: fvar.rs before commit 6370354 — the smallest id whatever it is, when reserved ids are allowed -/
+def reusableNameIdOld (t : Table) (s : Str) (allowReserved : Bool) : Option Nat :=
   (reverseIds t s).find? fun id => allowReserved || 256 ≤ id
 
 /-- stat.rs:70-79, 88: smallest id ≥ 256 carrying the axis label; `none` = `unwrap()` panics -/
@@ -424,9 +463,6 @@ def FallbackSpec.get (s : FallbackSpec) (src : Nat → Option Str) (id : Nat) : 
   v.filter fun x => !x.isEmpty
 
 /-! ## Name ids coming from feature code (fontbe/src/features.rs:638-650, fea-rs output.rs:90-113) -/
-
-/-- `max_existing_name_id` of `static_metadata.names`, at least 255 -/
-def maxId (t : Table) : Nat := t.foldl (fun m p => max m p.1.id) 255
 
 /-- `remap_name_ids(max_existing + 1)`: ids ≥ 256 declared by the FEA compiler are moved above every existing id.
     (u16 saturation at `LAST_ALLOWED_NAME_ID` is outside the model: fewer than 32 k names.) -/
